@@ -47,7 +47,7 @@ COMPONENTS = {
     "real": ["VariableScaler", "EnOptConfig validation with transform context", "EnsembleEvaluator (from/to optimizer)", "results transform_from_optimizer", "BasicOptimizer", "optimizer step"],
     "stub": ["objective/constraint scalers (user supplied)", "SimEvaluator", "sim/scripted optimizer"],
 }
-PROBES = ["calls_compared", "results_compared", "perturbed_rows_compared", "feasibility_points_compared", "roundtrip_checked",
+PROBES = ["explicit_step_variables", "calls_compared", "results_compared", "perturbed_rows_compared", "feasibility_points_compared", "roundtrip_checked",
           "variable_transform", "objective_transform", "constraint_transform", "linear_constraints", "relative_perturbation",
           "basic_dict_path", "basic_validated_path", "constraint_info_compared", "nan_faults"]
 
@@ -95,6 +95,12 @@ def generate(seed: int, index: int, tier: str) -> dict:
         gen.add_nan_faults(rng, scn, rate=1.0, max_faults=2)
         for f in scn["faults"]:
             f["eval"] = None if real else f["eval"]
+    if path == "plan" and tr.get("var") and rng.random() < 0.25:
+        # the user hands a point to a step explicitly (e.g. the variables of an earlier result: user domain)
+        scn["plan"]["steps"].insert(0, {"kind": "evaluator", "cfg": 0, "variables": [list(scn["user_points"][0])]})
+        for t in scn["plan"].get("trackers", []):
+            t["sources"] = [i + 1 for i in t.get("sources", [])]
+        scn["explicit_step_variables"] = True
     scn["path"] = path
     scn["stratum"] = path
     return scn
@@ -256,7 +262,18 @@ def execute(scn: dict) -> dict:
         b = harness.run_scenario(trans)
         digest = harness.trace_digest(a) + harness.trace_digest(b)
         ea, eb = (a.exits[0] if a.exits else None), (b.exits[0] if b.exits else None)
-        if ea is not None and eb is not None and (ea[0] != eb[0] or (ea[0] == "ret" and ea[2] != eb[2])):
+        stepvar_bad = False
+        if scn.get("explicit_step_variables") and a.evaluator.calls and b.evaluator.calls:
+            probe("explicit_step_variables")
+            ra, rb = a.evaluator.calls[0].variables, b.evaluator.calls[0].variables
+            if ra.shape != rb.shape or not np.allclose(ra, rb, rtol=1e-9, atol=1e-9):
+                stepvar_bad = True
+                viol.append({"clause": "explicit-step-variables-not-user-domain", "sig": {},
+                             "detail": f"run_step(..., variables={scn['user_points'][0]}): without transforms the evaluator receives {ra[0].tolist()}, "
+                                       f"with the variable transform {rb[0].tolist()} (the point is read as an optimizer-domain point)"})
+        if stepvar_bad:
+            pass
+        elif ea is not None and eb is not None and (ea[0] != eb[0] or (ea[0] == "ret" and ea[2] != eb[2])):
             viol.append({"clause": "outcome-differs", "sig": {}, "detail": f"plain run ended {ea}, transformed run {eb}"})
         else:
             compared = _compare_runs(a.evaluator.calls, b.evaluator.calls, _results_list(a), _results_list(b), viol, probes)
